@@ -10,6 +10,7 @@ import Proofs.Machine.CommitBlocksExHH
 import Proofs.Machine.NoPendingEx
 import Proofs.Machine.CombinedHeadersEx
 import Proofs.Machine.PlainHeadersEx
+import Proofs.Machine.PlainHeaders2Ex
 import Proofs.Headers.Paths
 import Proofs.Headers.HunkHeader
 /-!
@@ -1002,17 +1003,43 @@ example : (∀ i ∈ mergeShow, i.WF) ∧
     agreesC {} mergeShow = true ∧ agreesC {} [.sec ccAdded, .sec ccModified] = true :=
   ⟨mergeShow_wf, mergeShow_rows, mergeShow_run.1, mergeShow_run.2.2⟩
 
--- plain `diff -u`: hunk lines that look like header lines (T22, step level only) -----------------------------------
+-- plain `diff -u` multi-file streams in the whole-run header theorem (T22) ---------------------------------------
 
-/- Full statement aimed at, NOT proved as a whole-run theorem (`one_file_header_per_section_plain`): for every `FHC`
-configuration and every plain `diff -u` / `diff -ru` multi-file input the reference reading `Plain.plainNext` accepts (sections
-`--- old` / `+++ new` / hunks whose `@@` lines announce the true number of old-file lines, `diff -u …` command lines), the
-file-header rows of the output are exactly one per `--- ` / `+++ ` pair, in order, written at the `+++ ` line and naming the
-two paths of that pair, and none for a `--- x` / `+++ x` line inside a hunk. Proved below: the second half, per step, for every
-state of the simulation. Missing: the `--- ` / `+++ ` header steps with the source `DiffUnified` (the lemmas of
-`Proofs/Machine/CombinedHeaders.lean` with `comparing = true` and `handledPair := none` at the `--- ` line) and the composition. -/
+/-- **`one_file_header_per_section_plain`** (whole runs, unbounded; `Proofs/Machine/PlainHeaders2.lean`): for every `FHC`
+configuration and every plain `diff -u` input made of file sections (`PSec`: the `--- old` line, the `+++ new` line — neither a
+commit line —, then the hunks: `@@` lines and the lines the reference reading `Plain.plainNext` takes as hunk lines, such that the
+reading ends with no old-file line outstanding, `PSec.wfb`, decidable): if the run succeeds, the file-header rows of delta's output
+are exactly `rowsOfP cfg 0 secs`: **one per `--- ` / `+++ ` pair**, in order, written at the `+++ ` line (index of the `--- ` line
++ 1), showing `old ⟶ new` for the two paths of that pair (dates after the tab dropped) — and **none for a `--- x` / `+++ x` line
+inside a hunk**: while the hunk's `@@` line still promises old-file lines a `--- x` line is the removed line `-- x`, and a `+++ x`
+line after a hunk line is the added line `++ x` (`one_file_header_per_section_plain_partial` below; the counter invariant of
+`BodyPlain.lean`). The first line's source detection and the arming of the counter are part of the run. Hypotheses: `FHC`;
+`PSec.wfb` — the `@@` lines must announce the true number of old-file lines (`hunk_count_needed`: otherwise the next section's
+`--- ` line is read as a hunk line and its header is missing). Not in the grammar: `diff -u …` command lines of `diff -ru` (after
+one a header with empty names is pending), `Only in …` lines. -/
+theorem one_file_header_per_section_plain {cfg : Cfg} (hc : FHC cfg) (secs : List Plain.PSec)
+    (w : ∀ s ∈ secs, s.wfb = true) {m : M} (e : run cfg (Plain.linesOfP secs) = .ok m) :
+    m.out.filter (fun r => r.kind == .file) = Plain.rowsOfP cfg 0 secs :=
+  Plain.run_one_file_row_per_section_plain hc secs w e
 
-/-- **`one_file_header_per_section_plain_partial`** (`Proofs/Machine/PlainHeaders.lean`): in a plain `diff -u` run, for every
+theorem file_header_count_plain {cfg : Cfg} (hc : FHC cfg) (secs : List Plain.PSec)
+    (w : ∀ s ∈ secs, s.wfb = true) {m : M} (e : run cfg (Plain.linesOfP secs) = .ok m) :
+    (m.out.filter (fun r => r.kind == .file)).length = secs.length := by
+  rw [one_file_header_per_section_plain hc secs w e, Plain.rowsOfP_length]
+
+open Machine.PlainHeaders2Ex Machine.CommitBlocksEx Machine.Plain in
+/-- the hypotheses are met by a concrete stream of three sections (22 lines; hunks with `--- x`, `+++ y`, `+++ v`, `+--- …` hunk
+lines and a `\ No newline` line; `--- /dev/null`), the rows are the expected ones (at lines 1, 13, 18), the model's run agrees
+(also with a boxed file style); and the hunk-count hypothesis is needed (`Proofs/Machine/PlainHeaders2Ex.lean`, `decide +kernel`) -/
+example : (∀ s ∈ plain3, s.wfb = true) ∧
+    shown (rowsOfP {} 0 plain3) =
+      [("old/x.txt ⟶   new/x.txt", 1), ("old/y.txt ⟶   new/y.txt", 13), ("/dev/null ⟶   new/z.txt", 18)] ∧
+    agreesP {} plain3 = true ∧
+    (pTruncated.wfb = false ∧ p2.wfb = true ∧ fileRowCount {} [pTruncated, p2] = 1) :=
+  ⟨plain3_wf, plain3_rows, plain3_run.1, hunk_count_needed⟩
+
+/-- **`one_file_header_per_section_plain_partial`** (the step the whole-run theorem rests on, and more general than its use
+there: any state of the simulation, anything pending; `Proofs/Machine/PlainHeaders.lean`): in a plain `diff -u` run, for every
 configuration (any file style, also `--color-only`), every machine that stands where the reference reading stands (`Plain.Sim s m`:
 source = plain diff, `m.counter` = number of old-file lines the current hunk still expects, unified hunk state inside hunks — the
 invariant `BodyPlain.lean` maintains over every accepted input) and every line the reading takes as a **hunk line** — a
